@@ -71,6 +71,8 @@ def gen_op(s: Choices, family: str, ds, mask_kinds=("none", "bool", "slice", "po
     elif name.startswith("rolling_") or name in ("shift", "diff"):
         op["mask"] = gen.gen_mask(s, ds, tuple(k for k in mask_kinds if k in ("none", "bool")))
         op["window"] = 1 + s.draw(3)
+        if name in ("shift", "diff") and s.chance(1, 6):
+            op["window"] = 0  # degenerate: the result could be (a view of) the input
         if name.startswith("rolling_"):
             op["min_periods"] = [None, 1, op["window"]][s.draw(3)]
     elif name in ("ema", "ema_timed"):
